@@ -24,7 +24,7 @@ RULE = ("one case = one complete Simulator.run(): 1-6 stations (EVSE / DeadbandE
         "120/208/240/277), period 1/5/15, sessions per station with back-to-back reuse and gaps, Battery / "
         "Linear2StageBattery continuous / stepwise (noise 0 and, with a patched np.random.normal, noise > 0) at initial "
         "SoC around every regime boundary, scripted scheduler (max_recompute 1 / k / None, multi-period schedules, "
-        "non-zero pilots addressed to vacant stations); cross-cutting families on fractions of the runs: earlier simulation on the same network / reused EV objects, interleaved decoy simulation, returned objects scribbled on, re-registered stations, periods 7/0.5/2.5/4.1/(1/3), estimated_departure, scheduler failures (Exception/BaseException) with resume by run()/fresh scheduler/JSON, pilot dtypes and mapping order, a second interpreter with another PYTHONHASHSEED, Interface / DataFrame / direct network entry points, analysis helpers asked on the interrupted simulator (post-mortem) and mid-run; station ids whose lexicographic order differs from the registration order (S-8..S-11, mixed case, numeric strings, descending); ~30% of the plain-network runs pass through to_json()/from_json() (finished run reloaded, or check-pointed mid-run, reloaded, fresh scheduler, continued) and are observed on the reloaded object by station name; a quarter of the runs on contrib StochasticNetwork (random assignment, waiting queue, swaps, early departure; attach/detach logged per EVSE); ~10% malformed histories (one invalid pilot / a session plugged into an occupied station / an unregistered station): run() aborts and the model must fail at exactly that operation. "
+        "non-zero pilots addressed to vacant stations); cross-cutting families on fractions of the runs: earlier simulation on the same network / reused EV objects, interleaved decoy simulation, returned objects scribbled on, re-registered stations, periods 7/0.5/2.5/4.1/(1/3), estimated_departure, scheduler failures (Exception/BaseException) with resume by run()/fresh scheduler/JSON, pilot dtypes and mapping order, a second interpreter with another PYTHONHASHSEED, Interface / DataFrame / direct network entry points, analysis helpers asked on the interrupted simulator (post-mortem) and mid-run, first periods advanced with Simulator.step() on a simulator that starts with an EV connected; station ids whose lexicographic order differs from the registration order (S-8..S-11, mixed case, numeric strings, descending); ~30% of the plain-network runs pass through to_json()/from_json() (finished run reloaded, or check-pointed mid-run, reloaded, fresh scheduler, continued) and are observed on the reloaded object by station name; a quarter of the runs on contrib StochasticNetwork (random assignment, waiting queue, swaps, early departure; attach/detach logged per EVSE); ~10% malformed histories (one invalid pilot / a session plugged into an occupied station / an unregistered station): run() aborts and the model must fail at exactly that operation. "
         "Distinct = distinct (network, sessions, pilot script); non-trivial = at least one period delivers energy")
 ASSUMPTIONS = ["theorems are over R (exact arithmetic); the implementation computes in IEEE doubles (values compared to 1e-9 relative)",
                "every session id is plugged at most once (C01) and station ids are distinct",
@@ -295,6 +295,7 @@ def run_history(inp, extra=None, midrun=None):
         del ops[:], occ[:], draw_log[:], _REC["net_rates"][:]
 
     events = []
+    preplugged = []
     for k, s in enumerate(inp["sessions"]):
         name = "sess%d" % k
         sess_num[name] = k
@@ -329,6 +330,9 @@ def run_history(inp, extra=None, midrun=None):
         ev = EV(s["arrival"], s["departure"], s["requested"],
                 station_ids[s["station"]] if s["station"] >= 0 else "not-registered", name, batt,
                 estimated_departure=s.get("est_dep"))
+        if inp.get("preplug") and inp["preplug"]["session"] == k:
+            preplugged.append(ev)          # connected before the simulator starts, see below
+            continue
         events.append(PluginEvent(s["arrival"], ev))
 
     script = inp["script"]           # list of (length, {station index: [pilots]}) per iteration
@@ -430,6 +434,17 @@ def run_history(inp, extra=None, midrun=None):
             sim = Simulator(net, Scripted(), EventQueue(events), datetime(2021, 3, 4, *inp.get("start_hm", [0, 0])),
                             period=inp["period"], signals=signals, verbose=False)
             try:
+                for ev in preplugged:
+                    # a simulation that starts with an EV already connected: what processing its PluginEvent would do
+                    from acnportal.acnsim.events import UnplugEvent
+                    sim.network.plugin(ev)
+                    sim.ev_history[ev.session_id] = ev
+                    sim.event_queue.add_event(UnplugEvent(ev.departure, ev))
+                if inp.get("preplug"):
+                    # the first periods (up to the next queued event) are advanced by hand with Simulator.step(schedule),
+                    # the rest is left to run()
+                    sim.step({station_ids[inp["sessions"][inp["preplug"]["session"]]["station"]]: [inp["preplug"]["pilot"]]})
+                    flags["stepped"] = int(sim.iteration)
                 while True:
                     try:
                         sim.run()
@@ -479,6 +494,7 @@ def run_history(inp, extra=None, midrun=None):
                                  rate=float(ev.current_charging_rate), requested=float(ev.requested_energy)))
             out["sessions"] = sess
             out["interrupted"] = flags["interrupted"]
+            out["stepped"] = flags.get("stepped", 0)
             out["post_mortem"] = pm_log
             out["probe"] = probe_log
             out["net_rates"] = _REC["net_rates"]
@@ -671,7 +687,7 @@ def gen_history(rng, tier, force=None):
     if rng.random() < 0.3:
         # non-default network tolerances (violation_tolerance, relative_tolerance), coarse ones included
         out["tolerances"] = [rng.choice([1.0, 0.5, 1e-3, 0.0]), rng.choice([1e-7, 1e-2, 0.0])]
-    if force in (None, "stochastic", "json-final", "json-midrun") and bad is None:
+    if force in (None, "stochastic", "json-final", "json-midrun", "step") and bad is None:
         # ---- cross-cutting families, each on a fraction of the histories
         if rng.random() < 0.35:
             out["probe"] = True                    # every entry point that reports the quantity; returned objects scribbled on
@@ -682,7 +698,28 @@ def gen_history(rng, tier, force=None):
         if rng.random() < 0.15:
             # stations first registered with other values, then re-registered
             out["rereg"] = [[k, rng.choice(KINDS), rng.choice(VOLTS)] for k in rng.sample(range(n), rng.randint(1, min(2, n)))]
-        if not stoch and rng.random() < 0.15:
+        if (force == "step" or (force is None and not stoch and not json_mode and not interrupts and rng.random() < 0.12)) and sessions:
+            # Simulator.step(): every session is shifted by a0 periods; one extra session is already connected when the
+            # simulator starts (period 0) and the periods before the first queued event are advanced with step(schedule)
+            # at a high pilot; run() does the rest.  (step() needs max_recompute None.)
+            a0 = rng.randint(2, 4)
+            for s_ in sessions:
+                s_["arrival"] += a0
+                s_["departure"] += a0
+                if "est_dep" in s_:
+                    s_["est_dep"] += a0
+            out["script"] = [dict() for _ in range(a0)] + script
+            s0 = rng.randrange(n)
+            first = min([s_["arrival"] for s_ in sessions if s_["station"] == s0], default=last + a0 + 1)
+            b = rand_battery(rng, False)
+            b.update(kind="ideal", cap=100, init=10.0, maxp=50, tsoc=0)
+            sessions.append(dict(station=s0, arrival=0, departure=rng.randint(1, first), requested=20.0, battery=b))
+            out["preplug"] = dict(session=len(sessions) - 1,
+                                  pilot=float(max(abs(x) for x in valid_pilots(stations[s0]["kind"]))))
+            out["max_recompute"] = None
+            for k_ in ("warmup", "reuse_evs", "decoy_at"):
+                out.pop(k_, None)
+        elif not stoch and rng.random() < 0.15:
             # a complete earlier simulation on the same network object; half of the time its EV / battery objects
             # are reset() and serve the recorded simulation as well
             wses, t0 = [], 0
@@ -786,6 +823,7 @@ def make_case(inp):
                            ("/stochastic" if inp.get("net_class") == "stochastic" else "")
                            + ("/json-%s%s" % (inp["json"], "" if impl.get("reloaded") else "(not reached)") if inp.get("json") else "")
                            + ("/interrupted" if impl.get("interrupted") else "")
+                           + ("/stepped%d" % impl["stepped"] if impl.get("stepped") else "")
                            + "".join("/" + k for k in ("probe", "dtypes", "decoy_at", "rereg", "warmup", "reuse_evs") if inp.get(k)))
     return dict(input=inp, impl={k: v for k, v in impl.items()}, coq=case_coq(inp, impl), ambiguous=bool(impl.get("ambiguous")),
                 kind=kind, sig=[inp["stations"], inp["sessions"], inp["script"], inp["period"]],
@@ -809,7 +847,7 @@ def pmap(fn, items, workers=8):
 
 def gen_cases(rng, n, tier):
     inputs = [gen_history(rng, tier, {3: "invalid", 5: "overlap", 7: "unknown", 9: "stochastic", 11: "json-final",
-                                      13: "json-midrun"}.get(k)) for k in range(n)]
+                                      13: "json-midrun", 15: "step"}.get(k)) for k in range(n)]
     cases = pmap(make_case, inputs)
     hashseed_check(cases)
     return cases
